@@ -42,6 +42,118 @@ def component_of(argkey):
     return None
 
 
+def find_engine(ctx, suf):
+    irp = ctx.irp
+    pub = irp.funcs.get('uriNormalizeSyntaxExMm' + suf)
+    if pub is None:
+        raise AnalysisBroken('uriNormalizeSyntaxExMm%s not found' % suf)
+    engines = [t for b in pub.blocks for i in b.ins if i.op == 'call' for t in [call_target(i)]
+               if t in irp.funcs and t != pub.name and 'MemoryManager' not in t]
+    if len(set(engines)) != 1:
+        raise AnalysisBroken('normalisation engine not identified: %s' % engines)
+    return irp.funcs[engines[0]]
+
+
+def branch_rules(ctx, chk, suf):
+    """owner / non-owner branches apply the same transformations in the same order; case folding follows
+    percent-decoding; the `relative` argument of dot-segment removal has the right truth table"""
+    prog = ctx.prog
+    f = find_engine(ctx, suf)
+    uri = f.params[0]
+    facts, dom = edge_conditions(f)
+    byid = dict((b.id, b) for b in f.blocks)
+    reach = {}
+    for b in f.blocks:
+        seen, st = set(), list(b.succs())
+        while st:
+            x = st.pop()
+            if x.id in seen:
+                continue
+            seen.add(x.id)
+            st.extend(x.succs())
+        reach[b.id] = seen
+    calls = {}
+    for b in f.blocks:
+        own = None
+        for cond, truth, _d in facts[b.id]:
+            if isinstance(truth, bool) and expr_key(cond) == '%s->owner' % uri:
+                own = truth
+        for idx, i in enumerate(b.ins):
+            if i.op == 'call' and base_name(call_target(i) or '') in TRANSFORMERS:
+                comp = component_of(expr_key(i.args[0]))
+                kind = 'lower' if 'Lowercase' in call_target(i) else 'pct'
+                calls.setdefault(comp, []).append((b.id, idx, kind, own, i))
+    for comp, cs in sorted(calls.items(), key=repr):
+        def before(a, b):
+            return (a[0] == b[0] and a[1] < b[1]) or (a[0] != b[0] and b[0] in reach[a[0]] and a[0] not in reach[b[0]])
+        seqs = {}
+        for who, accept in (('owner', (True, None)), ('borrowed', (False, None))):
+            mine = [c for c in cs if c[3] in accept]
+            order = sorted(mine, key=lambda c: sum(1 for d in mine if before(d, c)))
+            seqs[who] = [c[2] for c in order]
+        loc = cs[0][4].loc
+        chk.add('branch-agreement', 'agree:%s:%s' % (suf, comp), seqs['owner'] == seqs['borrowed'], loc,
+                'component %s: in-place branch applies %s, copying branch applies %s' % (comp, seqs['owner'], seqs['borrowed']),
+                func=f.name)
+        for who, sq in seqs.items():
+            if 'lower' in sq and 'pct' in sq:
+                ok = sq.index('lower') > max(k for k, x in enumerate(sq) if x == 'pct')
+                chk.add('branch-agreement', 'fold-after-decode:%s:%s:%s' % (suf, comp, who), ok, loc,
+                        'component %s, %s text: order %s (decoding %%41..%%5A produces upper-case letters, so case folding must '
+                        'follow percent-decoding)' % (comp, who, sq), func=f.name)
+    # relative flag
+    for b in f.blocks:
+        for i in b.ins:
+            if i.op == 'call' and base_name(call_target(i) or '') == 'uriRemoveDotSegmentsEx':
+                a = strip_casts(i.args[1])
+                if a.k != 'ref':
+                    raise AnalysisBroken('relative argument of dot-segment removal is not a variable at %s' % fmt_loc(i.loc))
+                # follow copies back to the conditional that produced 1
+                names = {a.v}
+                ones = []
+                changed = True
+                while changed:
+                    changed = False
+                    for bb in f.blocks:
+                        for j in bb.ins:
+                            if j.op == 'assign' and j.dst.k == 'ref' and j.dst.v in names:
+                                s2 = strip_casts(j.src)
+                                cv = const_value(j.src, prog)
+                                if cv is not None:
+                                    if cv == 1 and (bb.id, j.dst.v) not in [(x[0].id, x[1]) for x in ones]:
+                                        ones.append((bb, j.dst.v))
+                                elif s2 is not None and s2.k == 'ref' and s2.v not in names:
+                                    names.add(s2.v)
+                                    changed = True
+                if len(ones) != 1:
+                    raise AnalysisBroken('cannot derive the truth table of the relative flag at %s' % fmt_loc(i.loc))
+                conj = set()
+                outer = set((expr_key(c), t) for c, t, _d in facts[b.id] if isinstance(t, bool))
+                for c, t, _d in facts[ones[0][0].id]:
+                    if isinstance(t, bool) and (expr_key(c), t) not in outer:
+                        conj.add((expr_key(c), t))
+                norm = set()
+                for k, t in conj:
+                    if k in ('(%s->scheme.first == 0)' % uri, '(%s->scheme.first == NULL)' % uri):
+                        norm.add(('no-scheme', t))
+                    elif k == '%s->scheme.first' % uri or k == '(%s->scheme.first != 0)' % uri:
+                        norm.add(('no-scheme', not t))
+                    elif k == '%s->absolutePath' % uri:
+                        norm.add(('not-absolute', not t))
+                    elif k.startswith('uriIsHostSet') or 'IsHostSet' in k:
+                        norm.add(('no-host', not t))
+                    else:
+                        tmps = [d for bb in f.blocks for d in bb.ins if d.op == 'call' and d.dst is not None and d.dst.v == k]
+                        if tmps and base_name(call_target(tmps[0]) or '') == 'uriIsHostSet':
+                            norm.add(('no-host', not t))
+                        else:
+                            norm.add((k, t))
+                want = {('no-scheme', True), ('not-absolute', True), ('no-host', True)}
+                chk.add('relative-flag', 'relative-flag:%s' % ('ok' if norm == want else ','.join(sorted(str(x) for x in (want ^ norm)))),
+                        norm == want, i.loc, 'dot-segment removal keeps a leading ".." run iff %s; a relative-path reference is one '
+                        'with no scheme, no authority and a path that is not absolute' % sorted(norm), func=f.name)
+
+
 def run(ctx, chk):
     prog, irp = ctx.prog, ctx.irp
     chk.explanation = ('Partial. Decided from source without running compiled code: (a) finite tables by evaluating the helper functions '
@@ -64,6 +176,10 @@ def run(ctx, chk):
              'exactly where the transformer changes the text', floor=900)
     chk.rule('mask-guard', 'every transformer call in the normalisation engine is dominated by the mask bit of the component it is '
              'applied to and by outMask == NULL', floor=16)
+    chk.rule('branch-agreement', 'for every component the in-place (owner) and the copying branch apply the same transformations in the '
+             'same order, and case folding follows percent-decoding', floor=10)
+    chk.rule('relative-flag', 'the flag that makes dot-segment removal keep a leading ".." run is true exactly for relative-path '
+             'references: no scheme, no authority, path not absolute', floor=2)
     chk.rule('mask-report', 'every bit the mask query sets is decided by the matching predicate applied to the same component', floor=10)
     for suf in ('A', 'W'):
         cv = char_values(suf)
@@ -130,6 +246,24 @@ def run(ctx, chk):
                     u = ugly.call([('p', -len(text)), END], text)[0]
                     ok = got == want and (u == ('i', 1)) == (want != text)
                     chk.add('percent-triplet', 'triplet:%s:%s%s:%d' % (suf, chr(x), chr(y), len(pre)), ok, floc,
+                            '%r -> %r, expected %r; ugly predicate = %r' % (bytes(text), got, want, u),
+                            func='uriFixPercentEncodingEngine' + suf)
+        for lead in (b'%2F', b'%3A%5B', b'a', b'ab', b'/%7C'):
+            for x in HEX:
+                for y in HEX:
+                    text = list(lead) + [ord('%'), x, y]
+                    got = transform(text)
+                    want, k = [], 0
+                    while k < len(text):
+                        if text[k] == ord('%') and k + 2 < len(text):
+                            want += spec_triplet(text[k + 1], text[k + 2])
+                            k += 3
+                        else:
+                            want.append(text[k])
+                            k += 1
+                    u = ugly.call([('p', -len(text)), END], text)[0]
+                    ok = got == want and (u == ('i', 1)) == (want != text)
+                    chk.add('percent-triplet', 'pair:%s:%s:%s%s' % (suf, lead.decode(), chr(x), chr(y)), ok, floc,
                             '%r -> %r, expected %r; ugly predicate = %r' % (bytes(text), got, want, u),
                             func='uriFixPercentEncodingEngine' + suf)
         for text in ([ord('%')], [ord('%'), ord('4')], [ord('a'), ord('%'), ord('4')], [ord('a'), ord('b'), ord('%')],
@@ -224,4 +358,6 @@ def run(ctx, chk):
                         ok = outnull is False and bool(comps) and comps <= set(wantc)
                     chk.add('mask-report', 'report:%s:%s' % (suf, '|'.join(names)), ok, i.loc,
                             'bit %s reported from the predicate on %s (expected %s)' % (names, sorted(comps), wantc), func=f.name)
+    for suf in ('A', 'W'):
+        branch_rules(ctx, chk, suf)
     chk.assumptions += ['inputs of the transformers are texts the parser accepted (every "%" is followed by two hex digits)']
